@@ -9,11 +9,13 @@ import gc
 import io
 import random as _random
 import sys
+import tokenize  # noqa: F401 - imported in the template so that SimFS can patch its captured open()
 
 from .core import OPTION_NAMES, OPTION_SPACE, cjson, derive_seed, digest, normalise, sha_text
 from .simfs import CWD, Patches, SimFS
 from .worker import fork_run
 
+STDOUT_ENCODINGS = ["utf-8", "ascii", "latin-1", "cp1252"]
 PRNG_ALIGN = 20240229  # both the CLI child and the reference child seed `random` with this
 
 # ------------------------------------------------------------------------------------------
@@ -62,6 +64,12 @@ SPECIAL_INPUTS = {
     "syntax_error": b"def (:\n",
     "invalid_utf8": b"s = '\xff\xfe'\nprint(s)\n",
     "nul_byte": b"x = 1\n\x00\n",
+    "cookie_latin1": b"# -*- coding: latin-1 -*-\ns = 'caf\xc3\xa9 \xe4\xb8\xad'\nprint(s, len(s))\n",
+    "cookie_unknown": b"# vim: set fileencoding=nonsuch :\nv = 'x\xc3\xa9'\nprint(v)\n",
+    "cookie_utf8": b"#!/usr/bin/env python\n# coding: utf-8\nw = '\xc3\xbc'\nprint(w)\n",
+    "bom_hello": b"\xef\xbb\xbfprint('hello')\n",
+    "lone_cr_in_string": b"s = 'a\\rb'\nt = \"\"\"x\r\ny\rz\"\"\"\nprint(len(s), len(t))\n",
+    "formfeed": b"x = 1\n\x0c\ny = 2\nprint(x + y)\n",
 }
 
 ATTR_NAMES = ["config_names", "__doc__", "__module__", "__dict__", "__class__", "__init__", "__weakref__",
@@ -175,11 +183,14 @@ def child_exp(arg) -> dict:
     except BaseException as e:  # noqa: BLE001
         return {"out": "exc", "exc": [type(e).__name__, str(e)[:300]]}
     res = {"out": "ok", "sha": sha_text(normalise(conv)), "raw_sha": sha_text(conv), "len": len(conv)}
-    try:
-        conv.encode("utf-8")
-        res["utf8"] = True
-    except UnicodeEncodeError:
-        res["utf8"] = False
+    res["enc_ok"] = {}
+    for enc in STDOUT_ENCODINGS:
+        try:
+            (conv + "\n").encode(enc)
+            res["enc_ok"][enc] = True
+        except UnicodeEncodeError:
+            res["enc_ok"][enc] = False
+    res["utf8"] = res["enc_ok"]["utf-8"]
     res["single_line"] = "\n" not in conv and "\r" not in conv
     if do_eval:
         a, b = _behaviour(text, "exec"), _behaviour(conv, "eval")
@@ -290,7 +301,7 @@ def _spell(item, rng) -> list:
 def gen_base(seed: int) -> dict:
     rng = _random.Random(seed)
     # ---- input -----------------------------------------------------------------------
-    in_kind = rng.choice(["pool"] * 14 + ["special"] * 3 + ["absent", "dir", "unreadable"])
+    in_kind = rng.choice(["pool"] * 13 + ["special"] * 5 + ["absent", "dir", "unreadable"])
     in_path = rng.choice(["in.py", "in.py", "src/main.py", "\u00e9ntr\u00e9e.py"])
     out_path = rng.choice(["out.txt", "out.txt", "build/out.py", "r\u00e9sultat.txt"])
     files, dirs, ro, unreadable = {}, set(), [], []
@@ -379,6 +390,7 @@ def gen_base(seed: int) -> dict:
         "stdout_buffer": rng.choice([8192, 16, 200]),
         "stdout_line_buffered": rng.random() < 0.3,
         "locale": rng.choice(["utf-8", "latin-1", "ascii"]),
+        "stdout_encoding": rng.choice(["utf-8", "utf-8", "utf-8", "ascii", "latin-1", "cp1252"]),
     }
     return materialise({
         "prop": "C16", "seed": seed, "parts": parts, "out_mode": "stdout" if out_mode == "stdout" else "file",
@@ -512,16 +524,22 @@ def judge(ctx: C16Ctx, desc: dict, res: dict) -> list:
         return V  # not gated: the statement quantifies over input files that exist
     data = bytes.fromhex(fsd["files"][desc["in_path"]])
     model = expected_model(desc["items"])
-    exp = ctx.exp(data, model, do_eval=desc.get("prog") is not None)
+    exp = ctx.exp(data, model, do_eval=True)
+    if exp["out"] == "exc":
+        # the library call raises for these contents: there is no text to write, so a run that
+        # reports success has written something the library did not return
+        if status == 0:
+            viol("P1", "exit0-but-library-raises", library_exc=exp["exc"])
+        return V
     if exp["out"] != "ok":
-        return V  # undecodable input or conversion error: not gated (counted by the caller)
+        return V  # undecodable input: not gated (counted by the caller)
     if exp.get("eval") is False:
         viol("P2", exp.get("eval_class", "differs"), names=exp.get("eval_names"), prog=desc.get("prog"),
              detail=exp.get("eval_detail"))
 
-    def text_ok(b: bytes, allow_newline: bool):
+    def text_ok(b: bytes, allow_newline: bool, enc: str = "utf-8"):
         try:
-            t = b.decode("utf-8")
+            t = b.decode(enc)
         except UnicodeDecodeError:
             return False, "not-utf8"
         if sha_text(normalise(t)) == exp["sha"]:
@@ -533,10 +551,14 @@ def judge(ctx: C16Ctx, desc: dict, res: dict) -> list:
     if desc["out_mode"] == "stdout":
         if res["mutations"] or changed:
             viol("P1", "fs-changed-in-stdout-mode", changed=changed, mutations=res["mutations"][:4])
-        ok, how = text_ok(bytes.fromhex(res["stdout"]), True)
+        senc = desc["knobs"].get("stdout_encoding", "utf-8")
+        ok, how = text_ok(bytes.fromhex(res["stdout"]), True, senc)
         if status == 0 and not ok:
-            viol("P4" if fired else "P1", "exit0-but-stdout-" + how, fired=fired)
-        if status != 0 and not error_fault:
+            viol("P4" if fired else "P1", "exit0-but-stdout-" + how, fired=fired, stdout_encoding=senc)
+        # a result the terminal encoding cannot represent cannot be printed exactly: failing is
+        # then the only correct outcome (exit 0 with altered text is caught just above)
+        printable = exp.get("enc_ok", {}).get(senc, True)
+        if status != 0 and not error_fault and printable:
             viol("P4" if fired else "P1", "failed-without-error-fault", status=status, exc=res["exc"], fired=fired)
         return V
 
